@@ -78,9 +78,13 @@ def make_router(addr_i=1, **mibkw):
 @contextlib.contextmanager
 def quiet():
     """the router print()s on every discard; keep check output readable"""
+    import logging
     old = sys.stdout
     sys.stdout = io.StringIO()
+    prev = logging.root.manager.disable
+    logging.disable(logging.CRITICAL)
     try:
         yield
     finally:
         sys.stdout = old
+        logging.disable(prev)
